@@ -245,6 +245,11 @@ CREATE TRIGGER IF NOT EXISTS step_dependency_check_after_del AFTER DELETE ON dep
 BEGIN
     UPDATE step SET _check_after = 1 WHERE node IN (OLD.source, OLD.sink);
     UPDATE step SET _check_ready = 1 WHERE node = OLD.sink;
+    -- A file that loses a consuming step may lower the _implied_need of the step producing it.
+    -- That producer is not an endpoint of the deleted edge, and the scheduler's propagation
+    -- walks existing edges only, so it can no longer reach the producer through this one.
+    UPDATE step SET _check_after = 1
+    WHERE node IN (SELECT source FROM dependency WHERE sink = OLD.source);
 END;
 
 -- Keep _check_ready in sync with file state changes, so the scheduler recomputes
